@@ -793,7 +793,10 @@ class Duration:
 
         # Weeks are not combined with any other unit.
         if self.get_is_in_weeks():
-            return (start_string + str(self._weeks) + "W").replace(".", ",")
+            weeks = self._weeks
+            if int(weeks) == weeks:
+                weeks = int(weeks)
+            return (start_string + str(weeks) + "W").replace(".", ",")
 
         for prop_, unit in [("years", "Y"), ("months", "M"), ("days", "D"),
                             ("hours", "H"), ("minutes", "M"),
